@@ -134,6 +134,13 @@ public:
             }
         } catch (cereal::Exception &e) {
             throw SerializationError(e.what());
+        } catch (std::length_error &e) {
+            // a string length / element count that no container can hold
+            throw SerializationError(e.what());
+        } catch (std::bad_alloc &e) {
+            // cereal resizes strings and vectors to the size read from the
+            // stream before reading their elements
+            throw SerializationError("Invalid size");
         }
     }
 
